@@ -578,6 +578,26 @@ __wrap_nni_random(void)
 	return vs_random_seed;
 }
 
+// ---- the poll-descriptor pipe (nni_pollable) ---------------------------------------------
+// raising / draining the notification pipe are the visible effects of the lock-free pollable
+// protocol; with vs_atomic_points they are scheduling points like its atomic operations
+void __real_nni_plat_pipe_raise(int);
+void __real_nni_plat_pipe_clear(int);
+void
+__wrap_nni_plat_pipe_raise(int fd)
+{
+	if (self && vs_atomic_points && window)
+		yield_to_sched();
+	__real_nni_plat_pipe_raise(fd);
+}
+void
+__wrap_nni_plat_pipe_clear(int fd)
+{
+	if (self && vs_atomic_points && window)
+		yield_to_sched();
+	__real_nni_plat_pipe_clear(fd);
+}
+
 // ---- optional: allocator calls as scheduling points -------------------------------------
 // (vs_alloc_points: code that rebuilds a structure - allocate, copy, free - without holding the
 // lock that its users hold has no synchronisation operation inside; the allocator calls are the
